@@ -32,6 +32,9 @@ pub enum Op {
     ConflictAndResolve { resolver_node: usize },
     ClusterState,
     MetricsState,
+    /// another arbiter session registers on this node for the arbiter database (after earlier conflicts were resolved):
+    /// one client operation
+    ArbiterAgain,
 }
 
 impl Op {
@@ -52,6 +55,7 @@ impl Op {
             Op::ConflictAndResolve { .. } => "resolve",
             Op::ClusterState => "cluster-state",
             Op::MetricsState => "metrics-state",
+            Op::ArbiterAgain => "arbiter",
         }
     }
 }
@@ -116,6 +120,15 @@ fn gen(rng: &mut Rng) -> Program {
                 }
             },
         ));
+    }
+    // one program in eight ends with two conflicts resolved and then a new arbiter registering (what it is sent, and what
+    // registering cleans up, is node-local work)
+    if rng.chance(1, 8) {
+        let node = rng.below(nodes as u64) as usize;
+        ops.truncate(2);
+        ops.push((rng.below(nodes as u64) as usize, Op::ConflictAndResolve { resolver_node: rng.below(nodes as u64) as usize }));
+        ops.push((rng.below(nodes as u64) as usize, Op::ConflictAndResolve { resolver_node: rng.below(nodes as u64) as usize }));
+        ops.push((node, Op::ArbiterAgain));
     }
     let strategy = if rng.chance(1, 3) { "newer" } else { "none" }.to_string();
     let failover = nodes == 3 && rng.chance(1, 4);
@@ -343,6 +356,13 @@ fn execute(prog: Program) -> Outcome {
             }
             Op::MetricsState => {
                 sessions[node].exec("metrics-state");
+            }
+            Op::ArbiterAgain => {
+                let mut arb = Session::admin(&dbs[node]);
+                arb.exec("use-db a tok");
+                arb.exec("arbiter");
+                sleep_ms(50);
+                arb.disconnect();
             }
             Op::ConflictAndResolve { resolver_node } => {
                 // arbiter registered on `resolver_node`, conflicting write issued on `node`
